@@ -285,12 +285,8 @@ impl<'a> World<'a> {
                             return Some(format!("{short}: last OS sync request precedes the last write"));
                         }
                     }
-                    // kind of sync requests issued in this very call
-                    for e in k.step_events.iter() {
-                        if want_fsync && e.op == KOp::Fdatasync && paths.iter().any(|p| *p == k.inodes[e.ino as usize].path) {
-                            return Some("sync_all issued fdatasync instead of fsync".to_string());
-                        }
-                    }
+                    // (which of fsync / fdatasync is used is not part of the property: not checked)
+                    let _ = want_fsync;
                     None
                 });
                 if let Some(p) = problem {
@@ -436,7 +432,10 @@ impl<'a> World<'a> {
             mr.peak_live_key[c] = mr.peak_live_key[c].max(live_k[c]);
             mr.peak_live_val[c] = mr.peak_live_val[c].max(live_v[c]);
         }
-        if single_key {
+        if !single_key {
+            self.maps[m].bound_void = true;
+        }
+        if single_key && !self.maps[m].bound_void {
             for c in 0..15 {
                 let tot_k = live_k[c] + d.key_free[c].len() as u64;
                 let tot_v = live_v[c] + d.val_free[c].len() as u64;
